@@ -381,6 +381,23 @@ Section ABFProofs.
     intros [|z0 tl] j; cbn [czar_gather msum]; [reflexivity|]. apply fold_grid_add.
   Qed.
 
+  (* the CZAR gather leaves the grids of shared ABF and the z grids of every walker as they are; replica 0 ends
+     up with the sum of all z grids *)
+  Theorem czar_gather_frame : forall (ws : list (ewalker (A:=A))),
+    map e_w (czar_gather_step G ws) = map e_w ws /\ map e_z (czar_gather_step G ws) = map e_z ws /\
+    (forall r others j, ws = r :: others ->
+       exists r', czar_gather_step G ws = r' :: others /\ e_gz r' j = msum (map e_z ws) j).
+  Proof.
+    intros [|r others]; cbn [czar_gather_step map]; repeat split; auto; try discriminate.
+    intros r0 o j E. injection E as <- <-. eexists. split; [reflexivity|]. cbn [e_gz].
+    apply (czar_gather_sum (e_z r :: map e_z others)).
+  Qed.
+
+  (* a restart through a state file written by the repaired code (last_* saved) changes none of the three grids,
+     wherever it happens *)
+  Theorem restart_identity : forall t (w : W), wG (w_restart t w) = wG w /\ wL (w_restart t w) = wL w /\ wLoc (w_restart t w) = wLoc w.
+  Proof. intros; repeat split. Qed.
+
   (* replica 0 could receive the deltas in any order *)
   Theorem root_collect_order : forall r ms ms' j, Permutation ms ms' ->
     wG (root_collect G r ms) j = wG (root_collect G r ms') j.
@@ -558,10 +575,10 @@ Proof.
   destruct H as [|x tl Hx Ht]; cbn [skipn]; auto.
 Qed.
 
-Lemma filter_keep_all : forall s l, Forall (fun h => s < hit h) l -> filter (keep s) l = l.
+Lemma filter_keep_all : forall s l, Forall (fun h => s <= hit h) l -> filter (keep s) l = l.
 Proof.
   intros s l H. induction H as [|h tl Hh _ IH]; [reflexivity|].
-  cbn [filter]. unfold keep at 1. destruct (Z.ltb_spec s (hit h)); [now rewrite IH|lia].
+  cbn [filter]. unfold keep at 1. destruct (Z.leb_spec s (hit h)); [now rewrite IH|lia].
 Qed.
 
 Definition cont_of (st : pstate) : list hill := match snd st with Some m => m_cont m | None => [] end.
@@ -574,7 +591,7 @@ Definition wF (w : writer) : list hill := w_lost w ++ w_file w.
 Definition WInv (w : writer) : Prop :=
   w_D w = sf_hills (w_state w) ++ wF w /\
   (w_lost w = [] \/ (w_file w = [] /\ w_vis w = 0)) /\
-  Forall (fun h => sf_step (w_state w) < hit h) (wF w) /\
+  Forall (fun h => sf_step (w_state w) <= hit h) (wF w) /\
   0 <= w_vis w <= Z.of_nat (length (w_file w)).
 
 (* the mirror holds the state file that is in place (whatever file names it remembers: a change of names only
@@ -612,36 +629,31 @@ Proof.
   specialize (H x Hx). lia.
 Qed.
 
-Lemma steps_ok_spec : forall w s, steps_ok w s = true ->
-  sf_step (w_state w) <= s /\ Forall (fun x => hit x <= s) (w_D w).
-Proof.
-  intros w s H. unfold steps_ok in H. apply andb_true_iff in H. destruct H as [H1 H2].
-  apply Z.leb_le in H1. apply forallb_le in H2. auto.
-Qed.
-
 Lemma is_nil_spec : forall l, is_nil l = true -> l = [].
 Proof. intros [|x l] H; [reflexivity|discriminate]. Qed.
 
-(* a state file written at the same step as the one in place: nothing was deposited in between *)
-Lemma same_step_F_empty : forall w s, WInv w -> sf_step (w_state w) = s ->
-  Forall (fun x => hit x <= s) (w_D w) -> wF w = [].
+Lemma steps_ok_spec : forall w s, steps_ok w s = true ->
+  sf_step (w_state w) <= s /\ Forall (fun x => hit x <= s) (w_D w) /\
+  (sf_step (w_state w) = s -> wF w = []).
 Proof.
-  intros w s (HD & _ & HF & _) Hs Hle. rewrite HD in Hle. apply Forall_app in Hle. destruct Hle as [_ Hle].
-  destruct (wF w) as [|h tl]; auto.
-  inversion HF as [|? ? H1 _]; inversion Hle as [|? ? H2 _]; subst. lia.
+  intros w s H. unfold steps_ok in H. apply andb_true_iff in H. destruct H as [H H3].
+  apply andb_true_iff in H. destruct H as [H1 H2].
+  apply Z.leb_le in H1. apply forallb_le in H2. repeat split; auto.
+  intros E. apply orb_true_iff in H3. destruct H3 as [H3|H3]; [apply Z.ltb_lt in H3; lia|].
+  apply andb_true_iff in H3. destruct H3 as [Ha Hb]. unfold wF. now rewrite (is_nil_spec _ Ha), (is_nil_spec _ Hb).
 Qed.
 
 (* the state file is replaced by (s, everything deposited) and nothing is left outside it *)
 Lemma MInv_newstate : forall w w' m s, WInv w -> MInv w (Some m) ->
-  sf_step (w_state w) <= s -> Forall (fun x => hit x <= s) (w_D w) ->
+  sf_step (w_state w) <= s -> (sf_step (w_state w) = s -> wF w = []) ->
   w_state w' = mkSF s (w_D w) -> wF w' = [] ->
   MInv w' (Some m).
 Proof.
-  intros w w' m s HW (Hnd & HSle & Hcur & Hnc) Hs Hle Hst' Hf'. unfold MInv.
+  intros w w' m s HW (Hnd & HSle & Hcur & Hnc) Hs Hsame0 Hst' Hf'. unfold MInv.
   assert (Hsame : current w' m -> current w m /\ wF w = []).
   { intros (Hh & HS). rewrite Hst' in HS; cbn [sf_step] in HS. specialize (HSle Hh).
     assert (E : sf_step (w_state w) = s) by lia.
-    split; [split; auto; lia|]. apply (same_step_F_empty w s HW E Hle). }
+    split; [split; auto; lia|]. apply Hsame0, E. }
   split; [auto|]. split; [|split].
   - intros Hh. rewrite Hst'; cbn [sf_step]. specialize (HSle Hh). lia.
   - intros Hc'. destruct (Hsame Hc') as (Hc & Hfe). destruct (Hcur Hc) as (Hcont & Hp).
@@ -667,23 +679,86 @@ Proof.
   intros w w' [m|] Hst HF H; [|exact I]. unfold MInv, current in *. rewrite Hst, HF. exact H.
 Qed.
 
-(* one replica_share() of the reader (all repairs in place) when the peer's state file is all there *)
-Lemma share_spec : forall w om, WInv w -> MInv w om -> w_reg w = true -> w_sok w = true ->
-  exists m, share true true w om = Some m /\
+(* what update_replicas_registry() does to a mirror: only what it knows about file names changes *)
+Lemma share_names_frame : forall w om m1, share_names w om = Some m1 ->
+  let m0 := match om with None => m_new | Some m => m end in
+  m_has m1 = m_has m0 /\ m_pos m1 = m_pos m0 /\ m_S m1 = m_S m0 /\ m_cont m1 = m_cont m0.
+Proof.
+  intros w om m1 H. unfold share_names in H.
+  destruct (w_reg w && negb (w_rv w =? 0)).
+  - cbn [m_lf m_name m_hf] in H.
+    destruct ((w_rv w =? 2) && negb (w_lv w =? 0) &&
+              negb (name_is (m_name match om with None => m_new | Some m => m end) (w_name w) &&
+                    (m_hf match om with None => m_new | Some m => m end =? w_lv w)));
+      injection H as <-; cbn; auto.
+  - destruct om as [m|]; [|discriminate].
+    destruct (m_lf m && negb (w_lv w =? 0) && negb (name_is (m_name m) (w_name w) && (m_hf m =? w_lv w)));
+      injection H as <-; cbn; auto.
+Qed.
+
+Lemma share_names_none : forall w om, share_names w om = None -> om = None.
+Proof.
+  intros w om H. unfold share_names in H. destruct (w_reg w && negb (w_rv w =? 0)).
+  - match type of H with (if ?c then _ else _) = _ => destruct c end; discriminate.
+  - destruct om as [m|]; auto.
+    destruct (m_lf m && negb (w_lv w =? 0) && negb (name_is (m_name m) (w_name w) && (m_hf m =? w_lv w))); discriminate.
+Qed.
+
+Lemma MInv_frame : forall w m m', MInv w (Some m) ->
+  m_has m' = m_has m -> m_pos m' = m_pos m -> m_S m' = m_S m -> m_cont m' = m_cont m -> MInv w (Some m').
+Proof.
+  intros w m m' H Hh Hp HS Hc. unfold MInv, current in *. rewrite Hh, Hp, HS, Hc. exact H.
+Qed.
+
+Lemma MInv_new : forall w, MInv w (Some m_new).
+Proof.
+  intros w. unfold MInv, m_new, current; cbn [m_has m_cont m_S m_pos].
+  split; [auto|]. split; [discriminate|]. split; [intros [H0 _]; discriminate|].
+  intros _. exists (sf_hills (w_state w)). reflexivity.
+Qed.
+
+Lemma MInv_names : forall w om m1, MInv w om -> share_names w om = Some m1 -> MInv w (Some m1).
+Proof.
+  intros w om m1 HM H. destruct (share_names_frame w om m1 H) as (H1 & H2 & H3 & H4).
+  destruct om as [m|].
+  - eapply MInv_frame; eauto.
+  - eapply MInv_frame; [apply MInv_new| | | |]; auto.
+Qed.
+
+(* with the complete registry record and the complete list file the mirror knows the right file names *)
+Lemma share_names_complete : forall w om, w_reg w = true -> w_rv w = 2 -> w_lv w = 2 ->
+  exists m1, share_names w om = Some m1 /\ m_name m1 = Some (w_name w) /\ m_hf m1 = 2.
+Proof.
+  intros w om Hreg Hrv Hlv. unfold share_names. rewrite Hreg, Hrv, Hlv. cbn [Z.eqb Pos.eqb negb andb m_lf m_name m_hf].
+  set (m0 := match om with None => m_new | Some m => m end).
+  destruct (name_is (m_name m0) (w_name w) && (m_hf m0 =? 2)) eqn:E; cbn [negb]; eexists; split; try reflexivity; cbn [m_name m_hf]; auto.
+  apply andb_true_iff in E. destruct E as [E1 E2]. apply Z.eqb_eq in E2. split; auto.
+  unfold name_is in E1. destruct (m_name m0) as [k|]; [|discriminate]. apply Z.eqb_eq in E1. now subst.
+Qed.
+
+Lemma share_read_skip : forall f1 f2 w m1, m_name m1 = None \/ w_sok w = false -> share_read f1 f2 w m1 = m1.
+Proof.
+  intros f1 f2 w m1 [H|H]; unfold share_read; [now rewrite H|]. destruct (m_name m1); auto. now rewrite H.
+Qed.
+
+(* read_replica_files() for a mirror that knows a state file name, when the peer's state file is all there
+   (all repairs in place) *)
+Lemma share_read_spec : forall w m1 k0, WInv w -> MInv w (Some m1) -> m_name m1 = Some k0 -> w_sok w = true ->
+  let m := share_read true true w m1 in
     current w m /\ m_sync m = true /\
     m_cont m = sf_hills (w_state w) ++ firstn (Z.to_nat (m_pos m)) (wF w) /\
     0 <= m_pos m <= Z.of_nat (length (wF w)) /\
-    (w_lost w = [] -> w_vis w <= m_pos m).
+    (m_hf m1 = 2 -> w_lost w = [] -> w_vis w <= m_pos m).
 Proof.
-  intros w om (HD & Hlf & HF & Hv) HM Hreg Hsok.
-  unfold share. rewrite Hreg, Hsok. cbn [negb].
-  set (m0 := match om with None => m_new | Some m => m end).
-  set (m1 := if name_is (m_name m0) (w_name w) then m0
-             else mkM (Some (w_name w)) false (m_has m0) (m_pos m0) (m_S m0) (m_cont m0)).
+  intros w m1 k0 (HD & Hlf & HF & Hv) HM Hname Hsok. cbv zeta.
+  unfold share_read. rewrite Hname, Hsok. cbn [negb].
   set (m2 := if true && m_has m1 && m_sync m1 && negb (sf_step (w_state w) =? m_S m1)
-             then mkM (m_name m1) false (m_has m1) (m_pos m1) (m_S m1) (m_cont m1) else m1).
+             then mkM (Some k0) false (m_has m1) (m_pos m1) (m_S m1) (m_cont m1) (m_lf m1) (m_hf m1) else m1).
   set (m3 := if negb (m_has m2) || negb (m_sync m2)
-             then mkM (m_name m2) true true 0 (sf_step (w_state w)) (sf_hills (w_state w)) else m2).
+             then mkM (m_name m2) true true 0 (sf_step (w_state w)) (sf_hills (w_state w)) (m_lf m2) (m_hf m2) else m2).
+  assert (Hhf : m_hf m3 = m_hf m1).
+  { unfold m3, m2. destruct (true && m_has m1 && m_sync m1 && negb (sf_step (w_state w) =? m_S m1)); cbn [m_has m_sync m_hf];
+      match goal with |- m_hf (if ?c then _ else _) = _ => destruct c end; reflexivity. }
   assert (H3 : current w m3 /\ m_sync m3 = true /\
                m_cont m3 = sf_hills (w_state w) ++ firstn (Z.to_nat (m_pos m3)) (wF w) /\
                0 <= m_pos m3 <= Z.of_nat (length (wF w))).
@@ -697,16 +772,13 @@ Proof.
         - cbn [m_sync] in Es. discriminate.
         - split; auto. cbn [andb] in E. rewrite Eh, Es in E. cbn [andb] in E. now apply negb_false_iff in E. }
       destruct E21 as [E21 ES]. rewrite E21 in *. apply Z.eqb_eq in ES.
-      assert (E10 : m1 = m0).
-      { unfold m1 in *. destruct (name_is (m_name m0) (w_name w)); auto. cbn [m_sync] in Es. discriminate. }
-      rewrite E10 in *. destruct om as [m|].
-      + subst m0. destruct HM as (Hnd & HSle & Hcur & Hnc).
-        assert (Hc : current w m) by (split; auto).
-        destruct (Hcur Hc) as (Hcont & Hp). repeat split; auto; lia.
-      + subst m0. cbn in Eh. discriminate. }
+      destruct HM as (Hnd & HSle & Hcur & Hnc).
+      assert (Hc : current w m1) by (split; auto).
+      destruct (Hcur Hc) as (Hcont & Hp). repeat split; auto; lia. }
   destruct H3 as (Hc3 & Hs3 & Hcont3 & Hp3).
-  destruct (Z.leb_spec (m_pos m3) (w_vis w)) as [Hle|Hgt].
-  - eexists. split; [reflexivity|]. cbn [m_name m_has m_sync m_pos m_cont m_S].
+  destruct ((m_hf m3 =? 2) && (m_pos m3 <=? w_vis w)) eqn:Eread.
+  - apply andb_true_iff in Eread. destruct Eread as [_ Hle]. apply Z.leb_le in Hle.
+    cbn [m_name m_has m_sync m_pos m_cont m_S m_hf].
     destruct Hlf as [Hl | [Hf Hv0]].
     + assert (EF : wF w = w_file w) by (unfold wF; now rewrite Hl). rewrite EF in *.
       split; [destruct Hc3; split; auto|]. repeat split; auto; try lia.
@@ -716,7 +788,8 @@ Proof.
     + assert (Ep : m_pos m3 = 0) by lia.
       split; [destruct Hc3; split; auto|]. rewrite Hf. unfold sub. rewrite skipn_nil, firstn_nil. cbn [filter].
       rewrite app_nil_r. rewrite Hv0. rewrite Ep in *. repeat split; auto; try lia.
-  - exists m3. repeat split; auto; try lia; apply Hc3.
+  - split; [exact Hc3|]. split; [exact Hs3|]. split; [exact Hcont3|]. split; [exact Hp3|].
+    intros Hh2 _. rewrite Hhf, Hh2 in Eread. cbn [Z.eqb Pos.eqb andb] in Eread. apply Z.leb_gt in Eread. lia.
 Qed.
 
 Lemma MInv_of_current : forall w m, current w m ->
@@ -729,20 +802,17 @@ Proof.
   - intros Hnc. exfalso. apply Hnc. split; auto.
 Qed.
 
-(* the same when the peer's state file is only partly visible: the mirror may be created or told about new
-   file names; nothing is read, nothing it holds changes *)
-Lemma share_partial_state : forall w om, MInv w om -> w_reg w = true -> w_sok w = false ->
-  exists m, share true true w om = Some m /\ MInv w (Some m) /\
-    m_cont m = match om with Some m0 => m_cont m0 | None => [] end.
+(* whatever is visible of the registry record, the list file and the state file: the invariant survives an exchange *)
+Lemma MInv_share : forall w om, WInv w -> MInv w om -> MInv w (share true true w om).
 Proof.
-  intros w om HM Hreg Hsok. unfold share. rewrite Hreg, Hsok. cbn [negb].
-  set (m0 := match om with None => m_new | Some m => m end).
-  assert (HM0 : MInv w (Some m0)).
-  { destruct om as [m|]; [exact HM|]. subst m0. unfold MInv, m_new, current; cbn [m_has m_cont m_S m_pos].
-    split; [auto|]. split; [discriminate|]. split; [intros [H0 _]; discriminate|].
-    intros _. exists (sf_hills (w_state w)). reflexivity. }
-  assert (Hc0 : m_cont m0 = match om with Some m0 => m_cont m0 | None => [] end) by (destruct om; reflexivity).
-  destruct (name_is (m_name m0) (w_name w)); eexists; (split; [reflexivity|]); split; auto.
+  intros w om HW HM. unfold share. destruct (share_names w om) as [m1|] eqn:E; [|exact I].
+  pose proof (MInv_names w om m1 HM E) as HM1.
+  destruct (m_name m1) as [k0|] eqn:En.
+  - destruct (w_sok w) eqn:Hsok.
+    + destruct (share_read_spec w m1 k0 HW HM1 En Hsok) as (Hc & _ & Hcont & Hp & _).
+      apply MInv_of_current; auto.
+    + rewrite share_read_skip; auto.
+  - rewrite share_read_skip; auto.
 Qed.
 
 Lemma MInv_deposit : forall w om h, w_lost w = [] -> MInv w om -> MInv (wr_deposit w h) om.
@@ -757,7 +827,7 @@ Proof.
   - destruct (Hcur H) as (_ & Hp). rewrite app_length. cbn [length]. lia.
 Qed.
 
-Lemma WInv_deposit : forall w h, WInv w -> w_lost w = [] -> sf_step (w_state w) < hit h -> WInv (wr_deposit w h).
+Lemma WInv_deposit : forall w h, WInv w -> w_lost w = [] -> sf_step (w_state w) <= hit h -> WInv (wr_deposit w h).
 Proof.
   intros w h (HD & Hlf & HF & Hv) Hl Hh. unfold WInv, wr_deposit, wF in *; cbn [w_D w_state w_file w_vis w_lost] in *.
   rewrite Hl in *. cbn [app] in *. repeat split; auto.
@@ -770,22 +840,22 @@ Qed.
 Lemma WInv_fresh : forall w, WInv w -> file_fresh w = true.
 Proof.
   intros w (_ & _ & HF & _). unfold file_fresh. apply forallb_forall. intros h Hh.
-  rewrite Forall_forall in HF. apply Z.ltb_lt. apply HF. unfold wF. apply in_or_app. auto.
+  rewrite Forall_forall in HF. apply Z.leb_le. apply HF. unfold wF. apply in_or_app. auto.
 Qed.
 
 Lemma writer_eq : forall a b, w_D a = w_D b -> w_reg a = w_reg b -> w_name a = w_name b ->
   w_state a = w_state b -> w_file a = w_file b -> w_vis a = w_vis b -> w_lost a = w_lost b ->
-  w_sok a = w_sok b -> a = b.
+  w_sok a = w_sok b -> w_rv a = w_rv b -> w_lv a = w_lv b -> a = b.
 Proof. intros [] []; cbn; intros; subst; reflexivity. Qed.
 
 (* one event of the repaired protocol (restart the hills file, then rename the state file) *)
 Lemma pinv_step : forall st e, pinv st -> ev_ok true (fst st) e = true -> pinv (pstep true true st e).
 Proof.
   intros [w om] e [HW HM] Hok. cbn [fst snd] in *.
-  destruct e as [h|c|s|s| |b|s nn| | |]; cbn [pstep ev_ok] in *.
+  destruct e as [h|c|s|s| |b|k|k|s nn| | |]; cbn [pstep ev_ok] in *.
   - (* deposit *)
     apply andb_true_iff in Hok. destruct Hok as [Hok H3]. apply andb_true_iff in Hok. destruct Hok as [H1 _].
-    apply is_nil_spec in H1. apply Z.ltb_lt in H3.
+    apply is_nil_spec in H1. apply Z.leb_le in H3.
     split; cbn [fst snd]; [apply WInv_deposit|apply MInv_deposit]; auto.
   - (* visibility of the hills file *)
     split; cbn [fst snd].
@@ -793,22 +863,21 @@ Proof.
       repeat split; auto; try lia. destruct Hlf as [Hl|[Hf Hv0]]; auto. right. split; auto. rewrite Hf. cbn [length]. lia.
     + eapply MInv_ext; [| |exact HM]; reflexivity.
   - (* state-file rewrite as one event *)
-    apply andb_true_iff in Hok. destruct Hok as [_ Hok]. destruct (steps_ok_spec _ _ Hok) as [H1 H2].
+    apply andb_true_iff in Hok. destruct Hok as [_ Hok]. destruct (steps_ok_spec _ _ Hok) as (H1 & H2 & H2s).
     split; cbn [fst snd]; [eapply (WInv_newstate w); reflexivity|].
     destruct om as [m|]; [|exact I]. eapply (MInv_newstate w); eauto.
   - (* renaming the state file: the hills file has been restarted (or was empty) *)
     apply andb_true_iff in Hok. destruct Hok as [Hn Hok]. apply is_nil_spec in Hn.
-    destruct (steps_ok_spec _ _ Hok) as [H1 H2].
+    destruct (steps_ok_spec _ _ Hok) as (H1 & H2 & H2s).
     assert (Hv0 : w_vis w = 0) by (destruct HW as (_ & _ & _ & Hv); rewrite Hn in Hv; cbn [length] in Hv; lia).
     split; cbn [fst snd].
     + eapply (WInv_newstate w); cbn; auto.
     + destruct om as [m|]; [|exact I]. eapply (MInv_newstate w); eauto; try (unfold wF; cbn; now rewrite Hn).
   - (* restarting the hills file: what it held stays outside every file until the state file is renamed *)
-    pose proof (WInv_fresh _ HW) as Hfr.
-    assert (Hfilt : filter (keep (sf_step (w_state w))) (w_file w) = w_file w).
-    { apply filter_keep_all. destruct HW as (_ & _ & HF & _). unfold wF in HF. apply Forall_app in HF. apply HF. }
     assert (EF : wF (wr_state_b w) = wF w).
-    { unfold wF, wr_state_b; cbn [w_lost w_file]. now rewrite Hfilt, app_nil_r. }
+    { destruct HW as (HD & Hlf & _). unfold wF, wr_state_b; cbn [w_lost w_file]. rewrite app_nil_r.
+      fold (wF w). rewrite HD, app_length. replace (length (sf_hills (w_state w)) + length (wF w) - (length (sf_hills (w_state w)) + length (wF w)))%nat with 0%nat by lia.
+      reflexivity. }
     split; cbn [fst snd].
     + destruct HW as (HD & Hlf & HF & Hv). unfold WInv. rewrite EF. cbn [wr_state_b w_D w_state w_file w_vis w_lost].
       repeat split; auto; try lia; cbn [length]; lia.
@@ -817,18 +886,20 @@ Proof.
     split; cbn [fst snd].
     + destruct HW as (HD & Hlf & HF & Hv). unfold WInv, wr_svis, wF in *; cbn in *. repeat split; auto; lia.
     + eapply MInv_ext; [| |exact HM]; reflexivity.
+  - (* ... of the registry record *)
+    split; cbn [fst snd].
+    + destruct HW as (HD & Hlf & HF & Hv). unfold WInv, wr_rvis, wF in *; cbn in *. repeat split; auto; lia.
+    + eapply MInv_ext; [| |exact HM]; reflexivity.
+  - (* ... of the list file *)
+    split; cbn [fst snd].
+    + destruct HW as (HD & Hlf & HF & Hv). unfold WInv, wr_lvis, wF in *; cbn in *. repeat split; auto; lia.
+    + eapply MInv_ext; [| |exact HM]; reflexivity.
   - (* setup_output *)
-    apply andb_true_iff in Hok. destruct Hok as [_ Hok]. destruct (steps_ok_spec _ _ Hok) as [H1 H2].
+    apply andb_true_iff in Hok. destruct Hok as [_ Hok]. destruct (steps_ok_spec _ _ Hok) as (H1 & H2 & H2s).
     split; cbn [fst snd]; [eapply (WInv_newstate w); reflexivity|].
     destruct om as [m|]; [|exact I]. eapply (MInv_newstate w); eauto.
   - (* the reader exchanges *)
-    split; cbn [fst snd]; auto.
-    destruct (w_reg w) eqn:Hreg.
-    + destruct (w_sok w) eqn:Hsok.
-      * destruct (share_spec w om HW HM Hreg Hsok) as (m & -> & Hc & _ & Hcont & Hp & _).
-        apply (MInv_of_current w m); auto.
-      * destruct (share_partial_state w om HM Hreg Hsok) as (m & -> & Hm & _). exact Hm.
-    + unfold share. rewrite Hreg. exact HM.
+    split; cbn [fst snd]; auto. apply MInv_share; auto.
   - split; cbn [fst snd]; auto. destruct om as [m|]; [|exact I]. exact HM.
   - split; cbn [fst snd]; auto. exact I.
 Qed.
@@ -862,70 +933,71 @@ Proof.
   destruct (IH _ _ H2) as [H3 H4]. cbn [trace_ok prun fold_left]. rewrite H1, H3. auto.
 Qed.
 
-(* right after a replica_share() of the reader, at ANY moment of the peer's activity: everything of a registered
-   peer that is visible (its state file, if all of it is visible, and the complete records of its hills file) is in
-   the mirror, once and in order, and nothing else than hills of the peer; a partly visible state file leaves the
-   content untouched *)
+(* right after a replica_share() of the reader, at ANY moment of the peer's activity, when the peer's record in the
+   registry and its list file are all there: everything of the peer that is visible (its state file, if all of it
+   is visible, and the complete records of its hills file) is in the mirror, once and in order, and nothing else than
+   hills of the peer; a partly visible state file leaves the content untouched *)
 Theorem meta_share_complete : forall es w om, trace_ok true true true (es ++ [RShare]) pinit = true ->
-  prun true true (es ++ [RShare]) pinit = (w, om) -> w_reg w = true ->
+  prun true true (es ++ [RShare]) pinit = (w, om) -> w_reg w = true -> w_rv w = 2 -> w_lv w = 2 ->
   exists m, om = Some m /\ prefix (visible w) (m_cont m) /\ prefix (m_cont m) (w_D w) /\
             (w_sok w = true -> m_sync m = true) /\
             (w_sok w = false -> m_cont m = cont_of (prun true true es pinit)).
 Proof.
-  intros es w om Hok Hrun Hreg. rewrite prun_app in Hrun.
+  intros es w om Hok Hrun Hreg Hrv Hlv. rewrite prun_app in Hrun.
   destruct (trace_ok_app _ _ _ _ _ _ Hok) as [Hok1 _].
   pose proof (pinv_run es pinit pinv_init Hok1) as H.
   destruct (prun true true es pinit) as [w' om'] eqn:E. cbn [prun fold_left pstep] in Hrun.
   injection Hrun as <- <-. destruct H as [HW HM]. cbn [fst snd] in *.
+  destruct (share_names_complete w' om' Hreg Hrv Hlv) as (m1 & Hn & Hname & Hhf).
+  pose proof (MInv_names w' om' m1 HM Hn) as HM1.
+  destruct (share_names_frame w' om' m1 Hn) as (_ & _ & _ & Hc1).
+  unfold share. rewrite Hn.
+  exists (share_read true true w' m1). split; auto.
   destruct (w_sok w') eqn:Hsok.
-  - destruct (share_spec w' om' HW HM Hreg Hsok) as (m & Hs & Hc & Hsy & Hcont & Hp & Hvis).
-    exists m. split; auto. destruct HW as (HD & Hlf & HF & Hv).
+  - destruct (share_read_spec w' m1 _ HW HM1 Hname Hsok) as (Hc & Hsy & Hcont & Hp & Hvis).
+    destruct HW as (HD & Hlf & HF & Hv).
     split; [|split; [|split; [auto|discriminate]]].
-    + unfold visible. rewrite Hsok, Hcont. apply prefix_app_l.
+    + unfold visible. rewrite Hsok, Hrv, Hlv. cbn [Z.eqb Pos.eqb andb]. rewrite Hcont. apply prefix_app_l.
       destruct Hlf as [Hl|[Hf Hv0]].
-      * unfold wF. rewrite Hl. cbn [app]. apply firstn_prefix_le. specialize (Hvis Hl). lia.
-      * rewrite Hf, firstn_nil. exists (firstn (Z.to_nat (m_pos m)) (wF w')). reflexivity.
+      * unfold wF. rewrite Hl. cbn [app]. apply firstn_prefix_le. specialize (Hvis Hhf Hl). lia.
+      * rewrite Hf, firstn_nil. exists (firstn (Z.to_nat (m_pos (share_read true true w' m1))) (wF w')). reflexivity.
     + rewrite Hcont, HD. apply prefix_app_l, firstn_prefix.
-  - destruct (share_partial_state w' om' HM Hreg Hsok) as (m & Hs & Hm & Hcont).
-    exists m. split; auto. split; [|split; [|split; [discriminate|]]].
-    + unfold visible. rewrite Hsok. exists (m_cont m). reflexivity.
-    + destruct Hm as (Hnd & HSle & Hcur & Hnc). destruct HW as (HD & _). rewrite HD.
-      destruct (current_dec w' m) as [Hc|Hc].
+  - rewrite share_read_skip by auto.
+    split; [|split; [|split; [discriminate|]]].
+    + unfold visible. rewrite Hsok. exists (m_cont m1). reflexivity.
+    + destruct HM1 as (Hnd & HSle & Hcur & Hnc). destruct HW as (HD & _). rewrite HD.
+      destruct (current_dec w' m1) as [Hc|Hc].
       * destruct (Hcur Hc) as (-> & _). apply prefix_app_l, firstn_prefix.
       * eapply prefix_trans; [apply (Hnc Hc)|apply prefix_app].
-    + intros _. rewrite Hcont. unfold cont_of. cbn [snd]. destruct om'; reflexivity.
+    + intros _. rewrite Hc1. unfold cont_of. cbn [snd]. destruct om'; reflexivity.
 Qed.
 
-Theorem meta_state_replaces : forall w m, w_reg w = true -> w_sok w = true ->
-  (m_sync m = false \/ m_has m = false \/ name_is (m_name m) (w_name w) = false \/
-   (m_S m <> sf_step (w_state w) /\ m_has m = true)) ->
-  exists m', share true true w (Some m) = Some m' /\
+(* a (re)read state file replaces whatever the mirror held: the result does not depend on the previous
+   content or read position *)
+Theorem meta_state_replaces : forall w m k0, m_name m = Some k0 -> m_hf m = 2 -> w_sok w = true ->
+  (m_sync m = false \/ m_has m = false \/ (m_S m <> sf_step (w_state w) /\ m_has m = true)) ->
+  let m' := share_read true true w m in
     m_cont m' = sf_hills (w_state w) ++
                 filter (keep (sf_step (w_state w))) (firstn (Z.to_nat (w_vis w)) (w_file w)) /\
     m_S m' = sf_step (w_state w) /\ m_pos m' = Z.max 0 (w_vis w).
 Proof.
-  intros w m Hreg Hsok Hcase. unfold share. rewrite Hreg, Hsok. cbn [negb].
-  set (m1 := if name_is (m_name m) (w_name w) then m
-             else mkM (Some (w_name w)) false (m_has m) (m_pos m) (m_S m) (m_cont m)).
-  set (m2 := if true && m_has m1 && m_sync m1 && negb (sf_step (w_state w) =? m_S m1)
-             then mkM (m_name m1) false (m_has m1) (m_pos m1) (m_S m1) (m_cont m1) else m1).
+  intros w m k0 Hname Hhf Hsok Hcase. cbv zeta. unfold share_read. rewrite Hname, Hsok. cbn [negb].
+  set (m2 := if true && m_has m && m_sync m && negb (sf_step (w_state w) =? m_S m)
+             then mkM (Some k0) false (m_has m) (m_pos m) (m_S m) (m_cont m) (m_lf m) (m_hf m) else m).
   assert (Hre : negb (m_has m2) || negb (m_sync m2) = true).
-  { unfold m2. destruct (true && m_has m1 && m_sync m1 && negb (sf_step (w_state w) =? m_S m1)) eqn:E.
+  { unfold m2. destruct (true && m_has m && m_sync m && negb (sf_step (w_state w) =? m_S m)) eqn:E.
     - cbn [m_sync m_has]. apply orb_true_r.
-    - cbn [andb] in E. unfold m1 in *. destruct (name_is (m_name m) (w_name w)) eqn:En.
-      + destruct Hcase as [H|[H|[H|[H1 H2]]]].
-        * rewrite H. apply orb_true_r.
-        * rewrite H. reflexivity.
-        * discriminate.
-        * rewrite H2 in *. cbn [andb negb orb] in *. destruct (m_sync m); cbn [andb negb] in *; auto.
-          apply negb_false_iff, Z.eqb_eq in E. congruence.
-      + cbn [m_sync]. apply orb_true_r. }
-  rewrite Hre. cbn [m_pos m_S m_cont m_name m_sync].
-  destruct (Z.leb_spec 0 (w_vis w)) as [Hv|Hv].
-  - eexists. split; [reflexivity|]. cbn [m_cont m_S m_pos]. repeat split; try lia.
-    f_equal. f_equal. unfold sub. rewrite skipn_O. f_equal. lia.
-  - eexists. split; [reflexivity|]. cbn [m_cont m_S m_pos]. repeat split; try lia.
-    replace (Z.to_nat (w_vis w)) with 0%nat by lia. now rewrite firstn_O, app_nil_r.
+    - cbn [andb] in E. destruct Hcase as [H|[H|[H1 H2]]].
+      + rewrite H. apply orb_true_r.
+      + rewrite H. reflexivity.
+      + rewrite H2 in *. cbn [andb negb orb] in *. destruct (m_sync m); cbn [andb negb] in *; auto.
+        apply negb_false_iff, Z.eqb_eq in E. congruence. }
+  assert (Hhf2 : m_hf m2 = 2).
+  { unfold m2. destruct (true && m_has m && m_sync m && negb (sf_step (w_state w) =? m_S m)); auto. }
+  rewrite Hre. cbn [m_pos m_S m_cont m_name m_sync m_hf]. rewrite Hhf2. cbn [Z.eqb Pos.eqb andb].
+  destruct (Z.leb_spec 0 (w_vis w)) as [Hv|Hv]; cbn [m_cont m_S m_pos].
+  - repeat split; try lia. f_equal. f_equal. unfold sub. rewrite skipn_O. f_equal. lia.
+  - repeat split; try lia. replace (Z.to_nat (w_vis w)) with 0%nat by lia. now rewrite firstn_O, app_nil_r.
 Qed.
 
 (* the writer's own data: nothing the reader does changes what the writer deposited, and the writer's
@@ -995,7 +1067,7 @@ Lemma meta_prefix_both :
   (forall es w m, trace_ok true true true es pinit = true ->
      prun true true es pinit = (w, Some m) -> prefix (m_cont m) (w_D w)) /\
   (forall es w om, trace_ok true true true (es ++ [RShare]) pinit = true ->
-     prun true true (es ++ [RShare]) pinit = (w, om) -> w_reg w = true ->
+     prun true true (es ++ [RShare]) pinit = (w, om) -> w_reg w = true -> w_rv w = 2 -> w_lv w = 2 ->
      exists m, om = Some m /\ prefix (visible w) (m_cont m) /\ prefix (m_cont m) (w_D w) /\
                (w_sok w = true -> m_sync m = true) /\
                (w_sok w = false -> m_cont m = cont_of (prun true true es pinit))).
